@@ -8,6 +8,7 @@
 //!   stress <args>      free-running multi-threaded run with a watchdog
 //!   order <args>       free-running per-thread program-order check with a tiny command queue
 //!   ledger <file>      the real CacheWeight stepped one ledger action at a time (Ledger.v / LedgerUpd.v)
+//!   pool <file>        the real access pool stepped one PoolProto.v action group at a time
 //!   stall <millis>     a caller really blocked in front of the full command queue for a while
 mod json;
 mod kernels;
@@ -19,6 +20,7 @@ mod stress2;
 mod order;
 mod stall;
 mod ledger;
+mod poolrun;
 
 use std::env;
 
@@ -38,6 +40,7 @@ fn main() {
         "order" => order::run(&args[2..]),
         "stall" => stall::run(&args[2..]),
         "ledger" => ledger::run_file(&args[2]),
+        "pool" => poolrun::run_file(&args[2]),
         other => {
             eprintln!("unknown sub-command {}", other);
             std::process::exit(2);
